@@ -12,7 +12,7 @@ from . import events as E
 from . import proc
 from .proc import HarnessError, NodeHandle
 
-REPLICA_KINDS = ("read", "calc", "probe")
+REPLICA_KINDS = ("read", "calc", "probe", "import")
 SCHED_KINDS = ("restart",)
 
 
@@ -197,7 +197,7 @@ class Worker(object):
                     viol.append({"oracle": "O1", "role": "public", "group": event_group(ev),
                                  "kind": classify(exp, out), "event": i,
                                  "expected": exp, "observed": out})
-            elif kind in ("init", "import"):
+            elif kind == "init":
                 if out != "ok":
                     viol.append({"oracle": "O1", "role": "public", "group": event_group(ev),
                                  "kind": classify("ok", out), "event": i,
